@@ -204,16 +204,16 @@ theorem agree_enum_L (d : Nat) (vs : List (Bytes × VariantShape)) (f t : Nat) (
     simp
   | null =>
     rw [TL_scalar ext L d _ (fun _ h => by cases h) (fun _ h => by cases h)]
-    exact agree_enum ext hext hflt cfg' hap ext' vs f t _ hv hd (fun _ _ _ h => by cases h) (fun _ _ h => by cases h)
+    exact agree_enum ext hext hflt cfg' ext' vs f t _ hv.g hd (fun _ _ _ h => by cases h) (fun _ _ h => by cases h)
   | bool b =>
     rw [TL_scalar ext L d _ (fun _ h => by cases h) (fun _ h => by cases h)]
-    exact agree_enum ext hext hflt cfg' hap ext' vs f t _ hv hd (fun _ _ _ h => by cases h) (fun _ _ h => by cases h)
+    exact agree_enum ext hext hflt cfg' ext' vs f t _ hv.g hd (fun _ _ _ h => by cases h) (fun _ _ h => by cases h)
   | num n =>
     rw [TL_scalar ext L d _ (fun _ h => by cases h) (fun _ h => by cases h)]
-    exact agree_enum ext hext hflt cfg' hap ext' vs f t _ hv hd (fun _ _ _ h => by cases h) (fun _ _ h => by cases h)
+    exact agree_enum ext hext hflt cfg' ext' vs f t _ hv.g hd (fun _ _ _ h => by cases h) (fun _ _ h => by cases h)
   | str s' =>
     rw [TL_scalar ext L d _ (fun _ h => by cases h) (fun _ h => by cases h)]
-    exact agree_enum ext hext hflt cfg' hap ext' vs f t _ hv hd (fun _ _ _ h => by cases h) (fun _ _ h => by cases h)
+    exact agree_enum ext hext hflt cfg' ext' vs f t _ hv.g hd (fun _ _ _ h => by cases h) (fun _ _ h => by cases h)
 
 end
 
